@@ -3,7 +3,7 @@ from ..common import Check, hx
 
 THEOREMS = ['merge_comm', 'merge_assoc', 'merge_idem', 'add_ok', 'add_rejects_offset_ge_24', 'add_idem',
             'add_comm', 'sketch_append', 'sketch_set_ext', 'sketch_union', 'hex_roundtrip',
-            'hex_import_export', 'zeroCount_new', 'countZeros_le']
+            'hex_import_export', 'zeroCount_new', 'countZeros_le', 'filter_offset_in_range']
 
 ZERO = '00' * 256
 
